@@ -255,6 +255,8 @@ def run(ctx, rep):
     rule_separator(rep, crate)
     rule_commute(rep, crate)
     rule_positional(rep, crate)
+    from props import cg
+    cg.cg_controls(rep, ctx, [('M-C18a', rule_separator)])
     rep.trusted += ['rustc nightly MIR', 'engines/mirfacts']
     rep.assumptions += ['skips and subpatterns are append-only vectors whose relative order is the dependency the property exempts']
     from props import gen
